@@ -59,11 +59,12 @@ def new_problem(P, horizon=False, name="pb", hz_ph=20):
 
 
 def make_task(P, name, kind="fixed", optional=False, release=False, due=None, vmin=False,
-              vmax=False, allowed=0, work_amount=False, priority=False, dur=None, dur_ph=2):
+              vmax=False, allowed=0, work_amount=False, priority=False, dur=None, dur_ph=2, pkey=None):
     """kind: zero|fixed|var. due: None|'deadline'|'soft'. Symbolic parameters are named <name>_<field>.
     `dur`: concrete duration override for fixed tasks (None => symbolic)."""
     kw = {"name": name, "optional": optional}
     ti = TaskInfo(name=name, kind=kind, optional=optional)
+    ename, name = name, (pkey or name)  # parameters may be keyed independently of the element name
     if release:
         kw["release_date"] = P.int(f"{name}_rel", ph=1)
         ti.release = P.v(f"{name}_rel")
